@@ -54,6 +54,10 @@ impl ZXAyChip {
 
     pub fn set_regs(&mut self, regs: &[u8]) {
         self.regs.copy_from_slice(&regs[..16]);
+        // Program the sound generator too, not only the read-back copy of the registers
+        for reg in 0..16 {
+            self.ay.write_register(reg as u8, self.regs[reg]);
+        }
     }
 }
 
